@@ -81,6 +81,36 @@ def check_iter(fd):
         if not close(cum, ecum, 1e-9):
             out.append(fail('cumulative', f'position {i}: cumulative {cum!r}, exact {float(ecum)!r}'))
             break
+    # a second pass started while the first is between two messages must not disturb the first (and vice versa)
+    if not out and len(sched) >= 2:
+        try:
+            k = len(sched) // 2
+            outer = []
+            for i, m in enumerate(mid):
+                outer.append(m.time)
+                if i == k:
+                    inner_len = mid.length
+                    inner = [x.time for x in mid]
+                    if not close(inner_len, sched[-1][2], 1e-9) or inner != [x.time for x in got]:
+                        out.append(fail('nested-iteration', 'length / iteration started inside a running iteration is wrong'))
+            if outer != [x.time for x in got]:
+                out.append(fail('nested-iteration', f'times of a pass with a nested pass after message {k}: {outer[:8]} '
+                                                    f'expected {[x.time for x in got][:8]}'))
+        except Exception as exc:  # noqa: BLE001
+            out.append(fail('raises', f'nested iteration: {exc!r}', exc=exc_sig(exc)))
+    # length follows an in-place edit made after it was read once
+    if not out and fd['tracks']:
+        try:
+            extra = {'type': 'note_on', 'channel': 0, 'note': 1, 'velocity': 1, 'time': 480}
+            mid.tracks[0].append(M.to_mido(extra))
+            fd2 = dict(fd, tracks=[list(fd['tracks'][0]) + [extra]] + [list(t) for t in fd['tracks'][1:]])
+            s2 = exact_schedule(fd2)
+            if not close(mid.length, s2[-1][2], 1e-9):
+                out.append(fail('length-stale', f'length after appending a message: {mid.length!r}, exact '
+                                                f'{float(s2[-1][2])!r}'))
+            del mid.tracks[0][-1]
+        except Exception as exc:  # noqa: BLE001
+            out.append(fail('raises', f'length after edit: {exc!r}', exc=exc_sig(exc)))
     total = sched[-1][2] if sched else Fraction(0)
     if not close(length, total, 1e-9):
         out.append(fail('length', f'length {length!r}, exact {float(total)!r}'))
